@@ -14,10 +14,18 @@ fn main() {
         // the fast (release-like) profile re-runs layer/layered_operations only; hooks are compared in the checked profile
         ctx.run_slice(Slice::new(format!("layer[{}]", spec.name()), u.count(), |i, loc| check::<B>(&u.get_open(i), !fast, loc)));
     }
+    // many operations, few dependencies: every diagram with exactly 5 (thorough: also 6) operations of arity <= 1 on <= 3
+    // nodes - idle operations next to short chains listed in any order (sparse adjacency tables)
+    for e in if quick { vec![5usize] } else { vec![5, 6] } {
+        let sp = Spec { e_min: e, ..Spec::hyper(3, e, 1, 1, 1) };
+        let up = sp.universe();
+        ctx.run_slice(Slice::new(format!("layer-many-operations[{}]", sp.name()), up.count(), move |i, loc| check::<B>(&up.get_open(i), !fast, loc)));
+    }
     // structured families of larger diagrams (fan-out/in, parallel, chains, cycles with tails, diamonds, ...)
     let kmax = if quick { 6 } else { 8 };
     let mut st = ohmc::props::structured::shapes(kmax);
     st.extend(ohmc::props::structured::programs(kmax));
+    st.extend(ohmc::props::structured::shuffled_dags());
     ctx.run_slice(Slice::new(format!("structured[sizes 1..{}: {} diagrams]", kmax, st.len()), st.len() as u64, |i, loc| check::<B>(&st[i as usize].1, !fast, loc)));
     // the same families at large size parameters (size thresholds, long chains, wide layers, long cycles)
     let sizes: Vec<usize> = if quick { vec![33, 64, 65, 129] } else { vec![33, 64, 65, 129, 255, 256, 257, 513] };
